@@ -139,7 +139,39 @@ func (o *c17Oracle) AfterAdmin(c *tableCtx, op *Op, pan any, applied bool) *Viol
 
 var badPatterns = []string{"", "/a/{}", "/a/{:\\d+}", "/{a}{b}", "/x/{a}/{a}", "/{a:[}", "/p/{id:(}", "/{a}/{b}{c}/d"}
 
+// genC17Split: the history that leaves a parameter node split - register P, register a sibling that
+// shares the parameter and part of the following literal, remove the sibling - and then a pattern
+// identical to P up to the parameter name or only its '-' flag: P is the only live route, so the call
+// must be rejected.
+func genC17Split(r *Rng) *World {
+	w := &World{}
+	w.Opts = RouterOpts{Name: "r", Interceptors: GenICs(r), Trace: r.Pct(30)}
+	w.Pool = genPoolCfg(r)
+	tok := pick(r, usable([]string{`{id}`, `{name}`, `{-ign}`, `{id:\d+}`, `{-n:\d+}`, `{w:word}`, `{id:digit}`}, w.Opts.Interceptors))
+	root := pick(r, []string{"/pages/", "/u/", "/", "/a/b-"})
+	tail := pick(r, []string{"/log/", "/posts", ".html", "/ab"})
+	sib := tail[:r.Range(1, len(tail)-1)] + pick(r, []string{"x", "/p/{pg:\\d*}/ac", "z/{more}"})
+	p := root + tok + tail
+	w.Ops = []Op{
+		{K: "handle", Pattern: p, HID: 101, Methods: []string{"POST"}},
+		{K: "handle", Pattern: root + tok + sib, HID: 102, Methods: []string{"GET"}},
+		{K: "remove", Pattern: root + tok + sib},
+	}
+	twin := renamePattern(r, p, w.Opts.Interceptors)
+	m := NewModel(w.Opts)
+	for i := range w.Ops {
+		applyModel(m, &w.Ops[i])
+	}
+	if v, _ := m.HandleVerdict(twin, []string{"CONNECT"}); twin != "" && v == -1 {
+		w.Ops = append(w.Ops, Op{K: "badhandle", Pattern: twin, HID: 5001, Methods: []string{"CONNECT"}})
+	}
+	return w
+}
+
 func genC17(r *Rng, idx int, tier string) *World {
+	if r.Pct(8) {
+		return genC17Split(r)
+	}
 	mix := defaultMix
 	mix.reqLo, mix.reqHi = 0, 1
 	mix.pRemove, mix.pRemoveM = 8, 8
@@ -303,6 +335,12 @@ func renamePattern(r *Rng, raw string, ics []string) string {
 		if t.Ignore != r.Pct(25) {
 			name = "-" + name
 		}
+		if r.Pct(30) { // same name, only the '-' flag differs
+			name = t.Name
+			if !t.Ignore {
+				name = "-" + name
+			}
+		}
 		if t.Rule != "" {
 			sb.WriteString("{" + name + ":" + t.Rule + "}")
 		} else {
@@ -391,6 +429,9 @@ func (c08Oracle) AfterAdmin(c *tableCtx, op *Op, pan any, applied bool) *Violati
 	for _, pat := range c.m.SortedPatterns() {
 		mr := c.m.Routes[pat]
 		path, _ := FixedWitness(mr.P)
+		if o0 := c.probe("OPTIONS", path); o0.Zero {
+			return mk("options-auto", "options-missing", fmt.Sprintf("OPTIONS %s on a live pattern reached CallFunc with the zero handler", path))
+		}
 		og := c.probe("GET", path)
 		if og.Panic != "" || og.Zero || og.Pattern != pat {
 			continue // not dispatched here: C03's clauses
@@ -444,9 +485,18 @@ func (c08Oracle) AfterAdmin(c *tableCtx, op *Op, pan any, applied bool) *Violati
 			}
 		}
 		oo := c.probe("OPTIONS", path)
-		if oo.Panic == "" && !oo.Zero && oo.Pattern == pat && oo.Kind != KOptions {
-			return mk("options-auto", "options-missing", fmt.Sprintf("OPTIONS %s -> %s", path, oo.Key()))
+		if oo.Zero || (oo.Panic == "" && oo.Pattern == pat && oo.Kind != KOptions) {
+			return mk("options-auto", "options-missing", fmt.Sprintf("OPTIONS %s on a live pattern -> %s", path, oo.Key()))
 		}
+	}
+	return nil
+}
+
+// OnReq: whatever happens inside the GET handler (including a recovered panic), a HEAD request
+// delivers no body bytes to the connection.
+func (c08Oracle) OnReq(c *tableCtx, op *Op, o *Obs) *Violation {
+	if op.Req.Method == "HEAD" && o.BodyLen != 0 {
+		return &Violation{Prop: "C08", Oracle: "head-no-body", Sig: "head-body", Detail: fmt.Sprintf("%s (faults %d): %d body bytes reached the connection of a HEAD request", op.Req, len(op.Faults), o.BodyLen)}
 	}
 	return nil
 }
@@ -470,6 +520,9 @@ func genC08(r *Rng, idx int, tier string) *World {
 	mix.removeHead = true
 	mix.poolLo, mix.poolHi = 3, 8
 	w := genTableWorld(r, mix)
+	if r.Pct(50) {
+		w.Opts.Recovery = "status" // panicking handlers are then answered by the recovery option, through whatever writer the router hands it
+	}
 	var ops []Op
 	var gets []string
 	hid := 7000
@@ -478,6 +531,9 @@ func genC08(r *Rng, idx int, tier string) *World {
 			op.Script = genScript(r)
 			if r.Pct(60) && !contains(op.Methods, "GET") && len(op.Methods) > 0 {
 				op.Methods = []string{"GET"}
+				if !w.Opts.Trace && r.Pct(25) {
+					op.Methods = []string{"GET", "TRACE"} // TRACE registered by hand is an ordinary method
+				}
 			}
 		}
 		if isAdmin(op.K) && r.Pct(25) && len(gets) > 0 {
@@ -521,7 +577,12 @@ func genC08(r *Rng, idx int, tier string) *World {
 
 func init() {
 	register(&PropImpl{ID: "C08", Gen: genC08,
-		Exec: func(w *World, st *Stats) (*Violation, RunInfo) { return execTable(w, st, c08Oracle{}) }})
+		Exec: func(w *World, st *Stats) (*Violation, RunInfo) {
+			if w.Opts.Recovery == "status" {
+				return execTable(w, st, c08Oracle{}, mux.WithStatusRecovery(503))
+			}
+			return execTable(w, st, c08Oracle{})
+		}})
 }
 
 // ---- C18: TRACE follows WithTrace -----------------------------------------------------------------
